@@ -202,7 +202,8 @@ mcache_open(void *key,       /* IN: byte string used as handle to share buffers 
     /* Set pagesize and object handle and current object size */
     mp->pagesize    = pagesize;
     mp->object_id   = object_id;
-    mp->object_size = pagesize * npages;
+    /* pagesize * npages need not fit in 32 bits (chunks larger than the data set, many chunks): saturate */
+    mp->object_size = (npages > 0 && pagesize > INT32_MAX / npages) ? INT32_MAX : pagesize * npages;
 
     /* Initialize list hash chain */
     for (pageno = 1; pageno <= mp->npages; ++pageno) {
